@@ -613,8 +613,8 @@ seeded('seeded-RBC18-goal-test-at-discovery-only', ['C18'], ['C18.bfs'])
 seeded('seeded-RBC19-wrapper-draws-a-goal-sample', ['C19'], ['C19.callbacks'])
 seeded('seeded-RBC20-baseexception-counts-as-satisfied', ['C20'], ['C20.goal'])
 for _n in ('ben30-r1', 'ben30-r2', 'ben30-r3', 'ben30-r5', 'ben31-r1', 'ben31-r2', 'ben31-r3', 'ben31-r4',
-           'ben32-r1', 'ben32-r2', 'ben32-r4', 'ben32-r5'):
-    benign_patch(_n, ALL)                                       # PRM / RRT-Connect / simple spaces, moderately invasive (the three not followed are in selftest/benign/unsupported, DESIGN 10.22)
+           'ben32-r1', 'ben32-r2', 'ben32-r3', 'ben32-r4', 'ben32-r5'):
+    benign_patch(_n, ALL)                                       # PRM / RRT-Connect / simple spaces, moderately invasive (the two not followed are in selftest/benign/unsupported, DESIGN 10.22)
 # the two genuine defects repaired in round 11, re-introduced: the rules that found them must fire again
 CASES.append({'name': 'c12-unit-overflow-reintroduced', 'props': ['C12'], 'expect': ['C12.unit'],
               'edits': [('oxmpl/src/base/states/so3_state.rs', '} else if norm.is_infinite() {', '} else if norm.is_infinite() && norm < 0.0 {')]})
